@@ -166,6 +166,31 @@ def extract_fn(repo, default_file, f):
     meta = {'fn': f['fn'], 'impl': f.get('impl'), 'file': os.path.relpath(path, repo),
             'lines': [src.count('\n', 0, kw) + 1, src.count('\n', 0, bc) + 1], 'sha256': sha,
             'mode': f.get('mode', 'verify')}
+    hoisted = []
+    for h in f.get('hoist', []):
+        # nested items (which cannot capture the environment) are moved, verbatim, in front of the function:
+        # Verus treats items nested in a body as external. Recorded as a deviation.
+        if h.get('kind', 'fn') == 'fn':
+            ls2, kw2, bo2, bc2 = find_fn(src, clean, h['name'], (bo, bc))
+            hdr2 = src[kw2:bo2].rstrip(); q2 = ' '.join(re.findall(r'\b(const|unsafe)\b', clean[ls2:kw2]))
+            if 'result' in h:
+                hdr2 = re.sub(r'->\s*(.+)$', lambda m: '-> (%s: %s)' % (h['result'], m.group(1).strip()), hdr2, flags=re.S)
+            c2 = ''
+            if h.get('requires'): c2 += '\n    requires\n' + h['requires'].rstrip() + '\n'
+            if h.get('ensures'): c2 += '\n    ensures\n' + h['ensures'].rstrip() + '\n'
+            b2 = src[bo2:bc2 + 1]
+            if h.get('entry'): b2 = b2[:1] + '\n    proof {\n' + h['entry'].rstrip() + '\n    }' + b2[1:]
+            hoisted.append((q2 + ' ' if q2 else '') + hdr2 + c2 + b2)
+            a2, e2 = ls2, bc2 + 1
+        else:
+            txt = find_const(src, clean, h['name'], (bo, bc))
+            a2 = src.index(txt, bo); e2 = a2 + len(txt)
+            hoisted.append(txt)
+        blank = ''.join(ch if ch == '\n' else ' ' for ch in src[a2:e2])
+        src = src[:a2] + blank + src[e2:]; clean = clean[:a2] + blank + clean[e2:]
+        meta.setdefault('deviations', []).append({'hoisted': '%s %s' % (h.get('kind', 'fn'), h['name']), 'why': 'item nested in the function body moved in front of the function verbatim (nested items cannot capture locals; Verus treats nested items as external)'})
+    if hoisted:
+        body = src[bo:bc + 1]
     if f.get('mode') == 'assume':
         # callee appears as external_body with a contract discharged elsewhere (named in discharged_by)
         if 'result' in f:
@@ -210,7 +235,10 @@ def extract_fn(repo, default_file, f):
         # last resort: anchor on normalised statement text
         idx = body.find(bs['text'])
         if idx < 0: raise LostAnchor('statement anchor `%s` of `%s` not found' % (bs['text'], f['fn']))
-        inserts.append((idx, 'proof {\n' + bs['proof'].rstrip() + '\n        }\n        '))
+        if bs.get('ghost'):   # ghost statements inserted verbatim (e.g. `let ghost c1 = carry;`) followed by an optional proof block
+            inserts.append((idx, bs['ghost'].rstrip() + '\n        ' + ('proof {\n' + bs['proof'].rstrip() + '\n        }\n        ' if bs.get('proof') else '')))
+        else:
+            inserts.append((idx, 'proof {\n' + bs['proof'].rstrip() + '\n        }\n        '))
     for off, text in sorted(inserts, key=lambda x: x[0], reverse=True):
         body = body[:off] + text + body[off:]
     deviations = []
@@ -221,7 +249,8 @@ def extract_fn(repo, default_file, f):
         deviations.append({'from': rp['from'], 'to': rp['to'], 'why': rp.get('why', '')})
     if f.get('rename'): header = re.sub(r'\bfn\s+' + re.escape(f['fn']) + r'\b', 'fn ' + f['rename'], header, count=1)
     item = (keep_quals + ' ' if keep_quals else '') + header + contract + body
-    if deviations: meta['deviations'] = deviations
+    if hoisted: item = '\n\n'.join(hoisted) + '\n\n' + item
+    if deviations: meta.setdefault('deviations', []).extend(deviations)
     return item, meta
 
 
